@@ -12,13 +12,13 @@ use serde_json::json;
 pub const RULE: &str = "cases = ranges R obtained from Range::parse (every single comparator of the operator x shape table incl. `<=1`, `<=1.2` with MAX_SAFE-filled bounds and `-0` bounds, hyphen shapes, random compound ranges with loose spellings, bound-kind table) and from up to three intersect/difference steps over such ranges; oracle = parse(R.to_string()) succeeds, same satisfies answers and same hook-observed bounds membership on ≈30 probes per bound, equal (==) to R when R came from parse, printing stable after one round, Display text read back by a harness-side reader equals the hook bounds (Display is faithful to state), serde JSON is the printed string and reads back equal; non-trivial = the printed form differs from the source text or R came from a set operation; distinct = distinct (source description) of R";
 
 fn shape_of(b: &Bs) -> String {
-    let mut s: Vec<String> = b.0.iter().take(3).map(|i| {
+    let mut s: Vec<String> = b.0.iter().take(2).map(|i| {
         let pre = i.versions().iter().any(|v| v.is_pre());
         let big = i.versions().iter().any(|v| v.minor == crate::mv::MAX_SAFE || v.patch == crate::mv::MAX_SAFE);
         let exact = matches!((&i.lo, &i.hi), (End::Inc(a), End::Inc(b)) if crate::mv::mv_eq(a, b));
         format!("{}{}{}{}{}", i.lo.kind(), i.hi.kind(), if pre { "p" } else { "" }, if big { "M" } else { "" }, if exact { "=" } else { "" })
     }).collect();
-    if b.0.len() > 3 {
+    if b.0.len() > 2 {
         s.push("+".into());
     }
     s.join("|")
